@@ -600,8 +600,9 @@ func (s *Server) startRaftLeadershipLoop(node *raftNode) {
 						case err == raft.ErrRaftShutdown:
 							// Node shutdown, just return.
 							return
-						case err == raft.ErrLeadershipLost:
-							// Node lost leadership, continue loop.
+						case err == raft.ErrLeadershipLost || err == raft.ErrNotLeader:
+							// Node lost leadership (possibly before this notification
+							// was handled), continue loop.
 							continue
 						default:
 							// Step down as leader.
